@@ -30,7 +30,7 @@ RULE = ("one case = 1-3 clients, each a template network config (T1 filter->[ove
 PROBES = ["checkpoint_after_messy_prefix", "adjoint_after_prior_adjoint_same_matrix", "cholesky_fallback_subject_only",
           "clients_interleaved", "sparse_eigen_seed_on_Q", "double_sensitivity_in_prefix", "missing_reset_in_prefix",
           "states_compared_after_response", "keep_alloc_source", "lda_disabled", "iterative_solver", "sensitivity_without_seed",
-          "eig_compare_skipped_gap"]
+          "eig_compare_skipped_gap", "input_updated_in_place"]
 FAULT_KINDS = ["cholesky_fail_forced", "arpack_start_vector_varied", "clock_jump"]
 COMPONENTS = {"real": ["pymoto.Network and library modules: FilterConv, DensityFilter, OverhangFilter, AssembleStiffness/Mass/Poisson, "
                        "LinSolve (+LDAWrapper, SparseLU, CG+Jacobi/SOR/ILU/GeometricMultigrid, dense Cholesky/LU/LDL), SystemOfEquations, "
@@ -272,7 +272,14 @@ def run(case):
                 elif op["op"] == "set":
                     k = op["i"] % len(T["sources"])
                     cl.cur_in[k] = op["seed"]
-                    T["sources"][k][0].state = T["sources"][k][1](op["seed"])
+                    new_ = T["sources"][k][1](op["seed"])
+                    cur_ = T["sources"][k][0].state
+                    if op["seed"] % 3 == 0 and isinstance(cur_, np.ndarray) and isinstance(new_, np.ndarray) and \
+                            cur_.shape == new_.shape and cur_.dtype == new_.dtype and cur_.flags.writeable:
+                        cur_[...] = new_        # the caller updates the design in place (x[:] = ..., x += ...): same array object
+                        probe("input_updated_in_place")
+                    else:
+                        T["sources"][k][0].state = new_
                     cl.stale = True
                 elif op["op"] == "resp":
                     c0 = seams.state["clock_reads"]
